@@ -88,6 +88,10 @@ func (m *storeModel) nameSees(up, j string) bool {
 // mayBeVisible: some upload of obj that can be seen under inst succeeded or
 // is still in flight with valid data.
 func (m *storeModel) mayBeVisible(obj int, inst string) bool {
+	if m.cfg.WConfig && !m.cfg.AC && len(m.objs[obj].Content) == 0 {
+		// the CAS creator's top-level decorator makes the empty blob always present
+		return true
+	}
 	for _, u := range m.uploads {
 		if u.Obj == obj && u.Valid && u.Status != upFailed && m.nameSees(u.Inst, inst) {
 			return true
@@ -512,7 +516,11 @@ func (w *storeWorld) doGet(op *storeOp) {
 		return
 	}
 	w.readsOK++
-	// visibility
+	// visibility (W-config: the CAS top-level decorator serves the empty blob
+	// without consulting the store, also as the child of a composite)
+	if op.Kind == opGetComposite && m.cfg.WConfig && len(expect) == 0 {
+		return
+	}
 	if !m.mayBeVisible(obj, op.Inst) {
 		w.c.Fail("read-of-never-uploaded", "%s succeeded although no successful or in-flight valid upload can be seen under %q", op, op.Inst)
 		return
